@@ -57,6 +57,10 @@ def obligations(cx):
         none_raise(cx, "%s.never-raises-for-admissible-input" % meth, ps, function=fn,
                    statement="inner construction of the converted Composition never fails for p in [0,1], M>0")
         no_abnormal(cx, meth, ps, function=fn)
+        # the formula below is a contract for EVERY call, whatever was converted before: no state that outlives the call is written
+        writes = [w for q_ in ps for w in q_.ex.ext_writes]
+        cx.ob("%s.frame" % meth, [], blit(not writes), kind='frame', function=fn, writes=str(sorted({w[1] for w in writes}))[:300],
+              statement="the conversion writes nothing but its freshly allocated result (no cache, no module-level state, arguments untouched)")
         r = only_return(ps, fn)
         if not (isinstance(r.value, Obj) and r.value.cls == 'Composition'): raise Unsupported("%s does not return a Composition" % fn)
         cx.ob("%s.result-type" % meth, [], blit(r.value.f['type'] == own[meth]), kind='paths', function=fn)
